@@ -186,6 +186,7 @@ P = {
     "C14.m": "by evaluation of parse_tree_to_objgraph.process_node / process_match on a sample parse tree: an object of a user class is allocated from the user's class without running __init__, its attribute store is reserved, it is queued once for initialisation after the model is built, and it gets its parent like any other object",
     "C14.n": 'by evaluation of the driver parse_tree_to_objgraph (recording stand-ins for the tree walkers, resolver class, loaders and cleanup functions; _start/_end_model_construction interpreted) on 9 load scenarios: a model of an immutable type (a match-rule result) restores the user-class instrumentation and releases the collected attributes at once, gets no resolver and is returned',
     "C14.p": 'by evaluation of the attribute methods the loader installs on user classes: for an object under construction reads and __dict__ answer from the collected attributes (scope providers enumerate obj.__dict__), writes and deletes go there; other objects of the class behave normally; a missing attribute is an AttributeError',
+    "C14.q": "by evaluation of _end_model_construction with sample user classes (own and inherited constructors) and a recording parser: the instrumentation is restored first; every user object, in creation order, gets its collected attributes set, leaves the class's storage and has its constructor - own or inherited - called exactly once with exactly the attributes of its rule plus parent; a constructor raising TypeError propagates naming the class, the ids recorded for release and the collected attributes of objects not yet initialised are still there",
     "C14.d": "__init__ called once per created instance with kwargs filtered to grammar attributes, after restore and before processors",
     "C14.e": "on every normal path through parse_tree_to_objgraph the parser is handed over to the model or the user classes are restored at once (immutable models)",
     "C14.f": "cleanup-and-reraise handlers that restore the user classes are catch-all (KeyboardInterrupt/SystemExit abort a load too)",
@@ -377,6 +378,8 @@ P = {
   decided={
     "C29.f": "html_escape evaluated on sample texts equals html.escape (every markup character escaped whatever else the text contains)",
     "C29.e": "dot_repr, which the taint rule treats as a sanitiser, returns in its string branch only text that went through dot_escape (whole or sliced), never the raw argument",
+    "C29.f": "every output file of the exporters is opened with encoding utf-8 (labels carry arbitrary text; with the locale's encoding a non-ASCII label aborts the write and leaves an unbalanced file)",
+    "C29.g": 'by evaluation of PlantUmlRenderer (constructor interpreted) for every linetype setting: the output starts with @startuml exactly once and ends with @enduml, the linetype line appears iff configured',
     "C29.a": "no model-derived text reaches a DOT/PlantUML write without passing an escaping function (taint with path atoms)",
     "C29.b": "dot_escape covers the record-label specials",
     "C29.c": "every model gets its nodes (empty own repository falls back to exporting the model); class boxes are not de-duplicated by short name",
